@@ -620,15 +620,16 @@ func (vfs *OrefaFS) OpenFile(name string, flag int, perm fs.FileMode) (avfs.File
 	}
 
 	if childOk {
+		if om&avfs.OpenCreateExcl != 0 {
+			// The name exists: an exclusive create fails whatever the name refers to.
+			return (*OrefaFile)(nil), &fs.PathError{Op: op, Path: name, Err: vfs.err.FileExists}
+		}
+
 		if child.mode.IsDir() {
 			if om&avfs.OpenWrite != 0 {
 				return (*OrefaFile)(nil), &fs.PathError{Op: op, Path: name, Err: vfs.err.IsADirectory}
 			}
 		} else {
-			if om&avfs.OpenCreateExcl != 0 {
-				return (*OrefaFile)(nil), &fs.PathError{Op: op, Path: name, Err: vfs.err.FileExists}
-			}
-
 			if om&avfs.OpenTruncate != 0 {
 				child.mu.Lock()
 				child.truncate(0)
